@@ -431,6 +431,42 @@ Definition results_indexed (s : state) (b n : nat) : bool :=
   | None => false
   end.
 
+(** * [par_extend]'s handling of the result vector (pool.rs 58-67)
+
+    The vector has [length v_elems] elements and capacity [v_cap].
+    [reserve_exact(additional)] guarantees room for [additional] MORE elements
+    (it does nothing when the spare capacity suffices); all spare slots are
+    pre-cleared, [set_len(old_len + additional)] has the precondition
+    "new length <= capacity" (an explicit [Panic]: std checks it in debug
+    builds, it is undefined behaviour otherwise); the broadcast then writes
+    slot [old_len + i] for call [i]. *)
+
+Record vecst := { v_elems : list (option nat); v_cap : nat }.
+
+Definition reserve_exact (len cap additional : nat) : nat :=
+  if Nat.leb additional (cap - len) then cap else len + additional.
+
+Definition par_extend_prepare (v : vecst) (n : nat) : res vecst :=
+  let old_len := length (v_elems v) in
+  let additional := n + 1 in
+  let cap' := reserve_exact old_len (v_cap v) additional in
+  if Nat.leb (old_len + additional) cap'
+  then Ok {| v_elems := v_elems v ++ repeat None additional; v_cap := cap' |}
+  else Panic Other.
+
+(** Writing the result slots of the broadcast at [old_len ..]. *)
+Fixpoint write_from {A} (i : nat) (sl : list A) (l : list A) : list A :=
+  match sl with
+  | [] => l
+  | x :: rest => write_from (S i) rest (set_nth i x l)
+  end.
+
+Definition par_extend_vec (v : vecst) (n : nat) (sl : list (option nat)) : res vecst :=
+  match par_extend_prepare v n with
+  | Ok v' => Ok {| v_elems := write_from (length (v_elems v)) sl (v_elems v'); v_cap := v_cap v' |}
+  | Panic p => Panic p
+  end.
+
 (** * Executable invariants (their Prop-level forms are proved inductive in
     Proofs/Pool.v; these boolean forms are evaluated on every reachable state of
     small scripts by the explorer in ocaml/pool.ml, as a test of the statements
@@ -580,6 +616,7 @@ Inductive ev :=
 | VDrop                             (* the pool is dropped *)
 | VExit (t : nat)                   (* thread t finished *)
 | VDead (t : nat)                   (* t accessed a dead task block (harness liveness marker) *)
+| VBadVec                           (* the result vector is not "old elements ++ n+1 new slots within capacity" *)
 | VOther.                           (* an event the pool never produces *)
 
 (** Clauses. *)
@@ -707,6 +744,7 @@ Definition mstep (pan : list (nat * nat)) (m : mon) (e : ev) : mon :=
          m_dropped := m_dropped m; m_rets := m_rets m;
          m_fail := (if m_dropped m then m_fail m else F_exit :: m_fail m) |}
   | VDead _ => failm m F_dead
+  | VBadVec => failm m F_results
   | VOther => failm m F_foreign
   end.
 
